@@ -143,6 +143,7 @@ Proof.
   intros k d data m md H Hmd. cbn [unpack] in H. rewrite Hmd in H.
   fold (st_init d md data) in H.
   destruct (scan_loop (S (length data)) md (st_init d md data)) as [st|e] eqn:Es; cbn [bind] in H; [|discriminate H].
+  destruct (max_members <? zlen (st_members st)) eqn:Hmax; [discriminate H|].
   destruct (alloc_slots (md_fields md) (st_bitmap st) (st_slots st)) as [slots|e] eqn:Ea; cbn [bind] in H; [|discriminate H].
   exists st. split; [reflexivity|]. intros i f Hn Hm.
   destruct (scan_loop_track md _ _ _ Es (init_track d md data)) as [(_ & I2 & _) _].
@@ -176,6 +177,7 @@ Theorem missing_required_rejected : forall k d data md st i f,
   unpack E (S k) d data = Err EFail.
 Proof.
   intros k d data md st i f Hmd Es Hn Hm Hno. cbn [unpack]. rewrite Hmd. fold (st_init d md data). rewrite Es. cbn [bind].
+  destruct (max_members <? zlen (st_members st)) eqn:Hmax; [reflexivity|].
   destruct (alloc_slots (md_fields md) (st_bitmap st) (st_slots st)) as [slots|e] eqn:Ea; cbn [bind].
   - exfalso. destruct (scan_loop_track md _ _ _ Es (init_track d md data)) as [(_ & I2 & _) _].
     destruct (I2 i (alloc_slots_required _ _ _ _ Ea i f Hn Hm)) as (sm & Hin & Hf). exact (Hno sm Hin Hf).
